@@ -321,7 +321,7 @@ func c14Run(c c14Case, st *vlib.Stats) string {
 	defer os.RemoveAll(img)
 	eng, err := mk.Start(dir)
 	if err == nil {
-		if err = eng.Exec("CREATE DATABASE " + DBName); err == nil {
+		if err = CreateDatabases(eng); err == nil {
 			err = eng.Exec("USE " + DBName)
 		}
 	}
@@ -388,8 +388,38 @@ func c14Run(c c14Case, st *vlib.Stats) string {
 		}
 		return fmt.Sprintf("%s the failed statement (%s, offending row operation %d of %d): %s\n  %s\n  error was: %v", when, c.Kind, c.K, c.N, msg, c.Failing, ferr)
 	}
+	// one valid statement per table must still work - and must not pick up anything the failed one
+	// left behind: it names a single column, every other column must come out NULL
+	validInserts := func() string {
+		for ti, name := range m.TableNames() {
+			t := m.Tables[name]
+			s := model.Stmt{Kind: "insert", Table: name, Rows: [][]model.Val{make([]model.Val, len(t.Cols))}}
+			for i := range t.Cols {
+				s.Rows[0][i] = model.Null()
+			}
+			if len(t.Cols) > 1 {
+				ci := (ti + c.K) % len(t.Cols)
+				s.InsCols = []string{t.Cols[ci].Name}
+				s.Rows[0] = []model.Val{model.Null()}
+			}
+			m.Apply(s)
+			if err := eng.ExecStmt(s); err != nil {
+				return fmt.Sprintf("a valid insert into %s after the failed statement was refused: %v", name, err)
+			}
+			if msg := CompareTable(eng, t, nil); msg != "" {
+				return "after a valid insert following the failed statement: " + msg
+			}
+		}
+		return ""
+	}
 	if msg := check(eng, "immediately after"); msg != "" {
 		return msg
+	}
+	if !knownHit && !c.Tick {
+		// in the same session, before any restart
+		if msg := validInserts(); msg != "" {
+			return msg
+		}
 	}
 	if !knownHit && c.Failing.Kind != "create" && !c.Tick {
 		// (in the same session, before any restart: what a failed statement may leave behind in the
@@ -462,19 +492,9 @@ func c14Run(c c14Case, st *vlib.Stats) string {
 			}
 		}
 	} else {
-		// one valid statement must still work
-		for _, name := range m.TableNames() {
-			t := m.Tables[name]
-			s := model.Stmt{Kind: "insert", Table: name, Rows: [][]model.Val{make([]model.Val, len(t.Cols))}}
-			for i := range t.Cols {
-				s.Rows[0][i] = model.Null()
-			}
-			m.Apply(s)
-			if err := eng.ExecStmt(s); err != nil {
-				return fmt.Sprintf("a valid insert into %s after the failed statement was refused: %v", name, err)
-			}
-			if msg := CompareTable(eng, t, nil); msg != "" {
-				return "after a valid insert following the failed statement: " + msg
+		if c.Tick {
+			if msg := validInserts(); msg != "" {
+				return msg
 			}
 		}
 	}
